@@ -381,6 +381,10 @@ impl PhysicalPlanner {
                         // c_custkey (range 15M) qualifies, l_orderkey does
                         // not.
                         let range = max.saturating_sub(min).saturating_add(1).max(1) as u64;
+                        #[cfg(feature = "verif")]
+                        if let Some(lo) = crate::verif_hooks::DENSE_RANGE_MIN.get() {
+                            return (lo..=64_000_000).contains(&range);
+                        }
                         return (2_000_000..=64_000_000).contains(&range);
                     }
                 }
@@ -511,6 +515,12 @@ impl PhysicalPlanner {
                     ),
                     None => provider.statistics().map(|s| s.total_byte_size),
                 };
+                #[cfg(feature = "verif")]
+                if let Some(cap) = crate::verif_hooks::PRESCAN_MAX_BYTES.get() {
+                    if total_bytes.is_some_and(|total| total > cap) {
+                        return None;
+                    }
+                }
                 if total_bytes.is_some_and(|total| total > PRESCAN_MAX_BYTES) {
                     return None;
                 }
@@ -1123,6 +1133,10 @@ impl PhysicalPlanner {
                                 > 400_000_000
                         })
                         .unwrap_or(false);
+                    #[cfg(feature = "verif")]
+                    let big = big
+                        || (crate::verif_hooks::FORCE_STREAMING_SCAN.get() == Some(1)
+                            && provider.parquet_files().is_some());
                     if !big {
                         return false;
                     }
